@@ -131,3 +131,75 @@ def raises_when(ctx, rule, qn, key, pred, what):
 
 def returns(ctx, qn, normal=True):
     return [p for p in ctx.paths(qn) if p.exit == "return"]
+
+
+def _mentions_param(fa, name):
+    tgt = ("param", name)
+    todo = [fa] + list(fa.nested.values())
+    for f in todo:
+        for p in f.paths:
+            for e in p.events:
+                for d in e.data:
+                    if isinstance(d, tuple) and any(x == tgt for x in walk(d)):
+                        return True
+            for c, _v in p.conds:
+                if any(x == tgt for x in walk(c)):
+                    return True
+            if isinstance(p.value, tuple) and any(x == tgt for x in walk(p.value)):
+                return True
+    return False
+
+
+def dead_parameters(ctx, rule="RP"):
+    """every parameter of the functions this property is anchored in, and every constructor attribute of their classes, is
+    consumed somewhere: a documented parameter that influences nothing (typically a dropped forwarding) is a definite defect,
+    whatever idiom the code uses.  Functions the repository marks with `# noqa: U100` (intentionally unused arguments) are exempt."""
+    pkg = ctx.pkg
+    quals = sorted(q for q in ctx.consulted if q in pkg.functions)
+    classes = set()
+    for qn in quals:
+        f = pkg.functions[qn]
+        if f.cls is not None:
+            classes.add(f.cls.qual)
+        if (f.module.qual, f.name) in pkg.unused_ok or f.name.startswith("__") and f.name != "__init__":
+            continue
+        fa = ctx.an.fa(qn)
+        if not fa.ok or not fa.paths:
+            continue
+        if all(p.exit == "raise" for p in fa.paths) and not any(e.kind != "call" for p in fa.paths for e in p.events):
+            continue          # abstract placeholder (raise NotImplementedError)
+        for prm in f.params:
+            if prm in ("self", "cls"):
+                continue
+            used = _mentions_param(fa, prm)
+            ctx.check(rule, "%s|parameter-consumed|%s" % (qn, prm), True if used else False, "parameter '%s' is consumed (it reaches a call, a condition, a store or the result)" % prm,
+                      bad="parameter '%s' of %s is never used: it has no effect on the result (dropped forwarding?)" % (prm, qn.split(".", 1)[1]), fn=qn, nontrivial=False)
+    for cq in sorted(classes):
+        c = pkg.classes[cq]
+        init = c.methods.get("__init__")
+        if init is None:
+            continue
+        fa = ctx.an.fa(init.qual)
+        if not fa.ok:
+            continue
+        stored = set()
+        for p in fa.paths:
+            for e in p.events:
+                if e.kind == "setattr" and e.data[0] == Q.SELF and e.data[1] in init.params:
+                    stored.add(e.data[1])
+        family = set(pkg.mro(cq)) | set(pkg.subclasses(cq))
+        readers = [f for f in pkg.functions.values() if f.cls is not None and f.cls.qual in family and f.name != "__init__"]
+        for a in sorted(stored):
+            read = False
+            for f in readers:
+                fa2 = ctx.an.fa(f.qual)
+                if not fa2.ok:
+                    read = True
+                    break
+                for fx in [fa2] + list(fa2.nested.values()):
+                    for p in fx.paths:
+                        if any(e.kind == "getattr" and e.data[0] == Q.SELF and e.data[1] == a for e in p.events) or \
+                                any(e.kind == "call" and callee(e.data[0]) in ("builtins.getattr", "builtins.hasattr") and len(e.data[0][2]) > 1 and e.data[0][2][1] == const(a) for e in p.events):
+                            read = True
+            ctx.check(rule, "%s|constructor-attribute-consumed|%s" % (cq, a), True if read else False, "constructor parameter '%s' is read by a method of the class" % a,
+                      bad="constructor parameter '%s' of %s is stored but never read by any method: it has no effect" % (a, cq.rsplit(".", 1)[1]), nontrivial=False)
